@@ -2150,22 +2150,45 @@ fn flip_unsplit_lines_impl(lines: Vec<Vec<Sp<Word>>>, in_array: bool) -> Vec<Vec
     new_lines
 }
 
+/// A bracket whose last line ends in a comment closes on a line of its own
+///
+/// The comment of a front line goes to the end of the joined line. When that is
+/// the line the bracket closes on, the closing bracket would become comment text.
+fn close_after_comment(mut lines: Vec<Item>) -> Vec<Item> {
+    if let Some(Item::Words(words)) = lines.last()
+        && words.last().is_some_and(|w| {
+            matches!(
+                w.value,
+                Word::Comment(_) | Word::SemanticComment(_) | Word::OutputComment { .. }
+            )
+        })
+    {
+        lines.push(Item::Words(Vec::new()));
+    }
+    lines
+}
+
 fn unsplit_word(word: Sp<Word>) -> Sp<Word> {
     word.map(|word| match word {
         Word::Func(mut func) => {
-            func.lines = flip_unsplit_items(func.lines);
+            func.lines = close_after_comment(flip_unsplit_items(func.lines));
             Word::Func(func)
         }
         Word::Array(mut arr) => {
-            arr.lines = flip_unsplit_items_impl(arr.lines, true);
+            arr.lines = close_after_comment(flip_unsplit_items_impl(arr.lines, true));
             Word::Array(arr)
         }
         Word::Pack(mut pack) => {
+            let last = pack.branches.len().saturating_sub(1);
             pack.branches = pack
                 .branches
                 .into_iter()
-                .map(|mut br| {
+                .enumerate()
+                .map(|(i, mut br)| {
                     br.value.lines = flip_unsplit_items(br.value.lines);
+                    if i == last {
+                        br.value.lines = close_after_comment(take(&mut br.value.lines));
+                    }
                     br
                 })
                 .collect();
